@@ -307,11 +307,11 @@ func c12Language(c *hx.Ctx, r *hx.RNG) {
 		case 1:
 			s = s[:r.Intn(len(s)+1)]
 		case 2:
-			s = " " + s
+			s = []string{" ", " ", "+", "-", "-+", "+-", "--", "++"}[r.Intn(8)] + s // (a second sign in front of a signed or unsigned literal)
 		}
 	}
 	if r.Chance(3) { // the infinity spellings and their neighbours
-		s = []string{"", "+", "-", "+-", " "}[r.Intn(5)] + []string{"Inf", "inf", "INF", "iNF", "Infinity", "infinity", "in", "Inff", "inf ", "Inf.", "Inf0", "nan", "NaN", "i", "I", "1nf", "<nil>", "null", "nil", "Null", "NULL", "true", "0x", "undefined", "none", "{}"}[r.Intn(26)]
+		s = []string{"", "+", "-", "+-", " ", "-+", "--", "++", "+ ", "-_"}[r.Intn(10)] + []string{"Inf", "inf", "INF", "iNF", "Infinity", "infinity", "in", "Inff", "inf ", "Inf.", "Inf0", "nan", "NaN", "i", "I", "1nf", "<nil>", "null", "nil", "Null", "NULL", "true", "0x", "undefined", "none", "{}"}[r.Intn(26)]
 	}
 	base := []int{0, 2, 8, 10, 16}[r.Intn(5)]
 	mode := r.Mode()
